@@ -535,7 +535,7 @@ def flat_statements(fn):
                     out.append("else")
                     walk(n.orelse)
                 out.append("end")
-            elif isinstance(n, (ast.Assign, ast.Return, ast.Delete, ast.AugAssign, ast.Expr)):
+            elif isinstance(n, (ast.Assign, ast.Return, ast.Delete, ast.AugAssign, ast.Expr, ast.Raise, ast.Assert, ast.Pass, ast.Continue, ast.Break)):
                 out.append(ast.unparse(n))
             elif isinstance(n, ast.For) and not n.orelse:
                 out.append("for " + ast.unparse(n.target) + " in " + ast.unparse(n.iter))
